@@ -661,6 +661,9 @@ func c17Recover(r *mc.Report, c c17Case, h *c17History, cut c17Cut, fs2 vfs.FS) 
 		viol("persisted-usage-not-below-present", "in-memory counter", fmt.Sprintf("after recovery the in-memory usage is %d but %d bytes are present", mem, A))
 	}
 	capB := uint64(c05Cap)
+	if recBefore <= capB && len(after) < len(before) {
+		viol("open-prunes-only-an-over-capacity-store", "NewStorage", fmt.Sprintf("persisted usage %d <= capacity at the cut, yet opening removed %d of %d items", recBefore, len(before)-len(after), len(before)))
+	}
 	if recBefore > capB {
 		freed := int64(held(before)) - int64(A)
 		if freed < int64(capB/20) && A != 0 {
